@@ -15,7 +15,7 @@
    the cycle space, and "in_ring <-> lies on a cycle" (search against a bridge finder). *)
 From Coq Require Import ZArith List Bool Permutation.
 From Model Require Import PyBase Graph Rings.
-From Proofs Require Import RingsProofs RingsMcb RingsRank RingsExt RingsDim RingsFund.
+From Proofs Require Import RingsProofs RingsMcb RingsRank RingsExt RingsDim RingsFund RingsMin.
 Import ListNotations.
 Open Scope Z_scope.
 
@@ -177,6 +177,19 @@ Theorem C06_mcb_ref_min_among_candidates_partial : forall g T,
   total_size (mcb_ref g) <= total_size T.
 Proof. exact mcb_ref_min_among_candidate_cycles. Qed.
 Print Assumptions C06_mcb_ref_min_among_candidates_partial.
+
+(* minimality of mcb_ref among ALL cycle bases, PARTIAL: proved under Horton's property of the graph (every simple cycle is a
+   GF(2) sum of candidates none of which is longer than the cycle).  This is the complete algebraic half of Horton's theorem
+   (threshold counting + Steinitz instead of an exchange argument); missing is the metric half: that the breadth-first
+   candidates of every graph have the property.  Every candidate has it trivially. *)
+Theorem C06_mcb_ref_minimum_partial : forall g, gwf g -> horton_property g ->
+  forall rs, is_cycle_basis g rs = true -> total_size (mcb_ref g) <= total_size rs.
+Proof. exact mcb_ref_minimum_partial. Qed.
+Print Assumptions C06_mcb_ref_minimum_partial.
+
+Theorem C06_candidate_small_span : forall g c, In c (mcb_candidates g) -> small_span g c.
+Proof. exact candidate_small_span. Qed.
+Print Assumptions C06_candidate_small_span.
 
 (* non-vacuity: six independent Horton candidates of the dense cage with total size 28; mcb_ref has 21 *)
 Theorem C06_min_weight_example :
